@@ -262,6 +262,23 @@ def check_C07(tier):
     return verdict(agg, tier, t0, rule, ['tapes are plain-uniform (history dependence, not branch coverage, is under test)', 'thorough tier repeats the histories against the ASan/UBSan build'], min_eval=500)
 
 
+def check_C10(tier):
+    t0 = time.time()
+    b = compile_bin('mdlcheck', ['checks/mdlcheck.cc'], 'fast')
+    cases = '6000000' if tier == 'thorough' else '300000'
+    agg = Agg('C10')
+    agg.add(run_native(b, ['--seed', str(seed()), '--cases', cases, '--known', known_tsv('C10')], NCPU, 'C10'))
+    rule = ('case = (event: synthetic 1-12 particles incl. collinear / axis-aligned / back-to-back, or a real decay of a random published nuclide / DBD configuration on a generated tape) x '
+            '(cone axis by vector or angles incl. poles and +-x,+-y; aperture in [0,pi) with mass at 0 and near pi; rectangular half-angles in (0,pi/2)) x species filter incl. all and an absent '
+            'species x rank -1..5 x error_on_missing x the five configuration entry points; oracle: count/species/times/|p| unchanged, event with registered op == op applied to the op-less event '
+            'on the tape suffix, target mode: all pairwise dot products + orientation preserved and target inside cone / rectangular window (both half-angles), selection mode: selected inside, '
+            'others bit-identical, nothing selected: unchanged or logic_error iff requested; every 5th case: degree entry point == radian entry point on the same tape; '
+            'distinct = (entry point, mode, cone class, #particles, selected count)')
+    return verdict(agg, tier, t0, rule, ['rectangular half-angle exactly 0 is excluded from the domain (strict < makes the window empty and the rejection loop cannot terminate)',
+                                         'cone frame convention: x along e_theta, y along e_phi of the axis direction (standard spherical basis)',
+                                         'tolerances: |p| 1e-12 relative, dot products 1e-9 relative, cone membership 1e-7 rad'], min_eval=10000)
+
+
 def check_C08(tier):
     """sanitizer builds (ASan+UBSan+_GLIBCXX_ASSERTIONS) of the generation drivers + structure-aware libFuzzer target"""
     t0 = time.time()
@@ -300,6 +317,9 @@ def replay(prop, path):
         b = compile_bin(nm, [src], 'fast', libs=['-lrapidcheck', '-rdynamic'] if prop == 'C09' else ['-lrapidcheck'])
         r = subprocess.run([b, '--replay', path], env=run_env())
         return r.returncode
+    if prop == 'C10':
+        b = compile_bin('mdlcheck', ['checks/mdlcheck.cc'], 'fast')
+        return subprocess.run([b, '--replay', path], env=run_env()).returncode
     if prop == 'C06':
         print('C06 replay files name a grid point; the grid is enumerated completely: re-run ./check C06 quick')
         return check_C06('quick')
